@@ -121,12 +121,21 @@ class WriteTracer:
 
 
 def census():
-    """live instance counts of parser / database / blueprint / model classes"""
-    from pydbml.parser import parser as P
-    from pydbml.parser import blueprints as B
+    """live instance counts of every class defined in pydbml.parser.* (parser, blueprints), of Database and of the
+    model classes; found by scanning the modules, so that renamed internals do not matter"""
+    import importlib
+    import pkgutil
+    import pydbml.parser as PP
     from pydbml.database import Database
-    classes = [P.PyDBMLParser, Database] + [c for c in vars(B).values()
-                                            if isinstance(c, type) and issubclass(c, B.Blueprint)]
+    classes = [Database]
+    for m in pkgutil.iter_modules(PP.__path__):
+        try:
+            mod = importlib.import_module('pydbml.parser.' + m.name)
+        except Exception:
+            continue
+        for c in vars(mod).values():
+            if isinstance(c, type) and getattr(c, '__module__', '').startswith('pydbml.parser'):
+                classes.append(c)
     classes += model_classes()
     classes = list(dict.fromkeys(classes))
     gc.collect()
